@@ -43,11 +43,11 @@ def order(fx):
     res = locks.analyse(fx, udp_bodies(fx), classify, BLOCKING)
     acq = res["acquisitions"]
     sites = sorted(set((b.short.replace(SW + "::", ""), cls, mode) for b, line, cls, mode, held, name in acq))
-    yield ob("R-C04-1", "order#acquisition_sites", len(acq) >= 9 and all(c in ("shard", "torrent") for _, c, _ in sites), None, None,
+    yield ob("R-C04-1", "order#acquisition_sites", len(acq) >= 6 and all(c in ("shard", "torrent") for _, c, _ in sites), None, None,
              "%d lock acquisition sites: %s" % (len(acq), sites), {"sites": [list(s) for s in sites], "count": len(acq)})
     edges = sorted(set((h, a, b.short.replace(SW + "::", "")) for h, a, b, line, how in res["edges"]))
     bad = [(h, a, b, line, how) for h, a, b, line, how in res["edges"] if (h, a) != ("shard", "torrent")]
-    yield ob("R-C04-1", "order#graph", not bad and len(edges) >= 2, bad[0][2] if bad else None, bad[0][3] if bad else None,
+    yield ob("R-C04-1", "order#graph", not bad and len(edges) >= 1, bad[0][2] if bad else None, bad[0][3] if bad else None,
              "lock-order edges %s; forbidden: %s" % (edges, sorted(set("%s -> %s in %s: %s" % (h, a, b.short.split("::")[-1], how) for h, a, b, line, how in bad))),
              {"edges": [list(e) for e in edges]})
     want = {("shard", "torrent", "TorrentMapShards::scrape"),
@@ -59,8 +59,8 @@ def order(fx):
     yield ob("R-C04-1", "order#no_blocking_under_guard", not blk, None, None, "blocking calls under a guard: %s" % blk, {"blocking": blk})
     who = sorted(set(b.short for b, line, cls, mode, held, name in acq))
     yield ob("R-C04-1", "order#who_locks", all(w.startswith(SW + "::") for w in who), None, None, "functions acquiring shard/torrent locks: %s" % [w.replace(SW + "::", "") for w in who], {"who": who})
-    esc = sorted(set(b.short for b, i, t in who_calls(fx, r"lock_api::RwLock.*::(get_mut|data_ptr|into_inner|force_unlock\w*|raw)$", crates=["aquatic_udp"]) if not in_test_code(b)))
-    yield ob("R-C04-1", "order#no_guard_bypass", not esc, None, None, "RwLock::{get_mut,data_ptr,into_inner,force_unlock} users: %s" % esc, trivial=True)
+    esc = sorted(set(b.short for b, i, t in who_calls(fx, r"lock_api::RwLock.*::(data_ptr|force_unlock\w*|raw)$", crates=["aquatic_udp"]) if not in_test_code(b)))
+    yield ob("R-C04-1", "order#no_guard_bypass", not esc, None, None, "RwLock::{data_ptr,force_unlock*,raw} users (get_mut / into_inner need exclusive access proven by the borrow checker and are fine): %s" % esc, trivial=True)
     # per-function modes
     modes = sorted(set((b.short.replace(SW + "::", ""), cls, mode, tuple(sorted(set(h[1] + "." + h[2] for h in held)))) for b, line, cls, mode, held, name in acq))
     want_modes = [
